@@ -248,11 +248,9 @@ func (expr *Expression) Materialize(ctx context.Context, env Environment) (execu
 			return nil, fmt.Errorf("couldn't materialize object field access object: %w", err)
 		}
 
-		fields := expr.ObjectFieldAccess.Object.Type.Struct.Fields
-		if expr.ObjectFieldAccess.Object.Type.TypeID == octosql.TypeIDUnion {
-			// Nullable object case
-			fields = expr.ObjectFieldAccess.Object.Type.Union.Alternatives[1].Struct.Fields
-		}
+		// The object may be nullable: NULL | {...}, or {...} | NULL as built by TypecheckPossiblyNullableStruct.
+		// Take the fields of the object alternative wherever it stands, exactly as the typechecker did.
+		fields := octosql.NonNullable(expr.ObjectFieldAccess.Object.Type).Struct.Fields
 
 		fieldIndex := 0
 		for i, field := range fields {
